@@ -189,7 +189,8 @@ def deliver(local, sc, cfg, hev, wire):
             exuid.setdefault(stack[ev.r][-1], int(ev.f[0]))
         elif ev.kind == "k:ex-" and stack[ev.r]:
             stack[ev.r].pop()
-    lines, origin, expect_hop = [f"init {n} {cfg.routing} {cfg.ppn}"], [None], {}
+    pl = getattr(cfg, "placement", None)
+    lines, origin, expect_hop = [f"initp {n} {cfg.routing} {cfg.ppn} {pl}" if pl else f"init {n} {cfg.routing} {cfg.ppn}"], [None], {}
     issue = {r: [] for r in range(n)}       # stack: an async may run handlers (which issue asyncs) before it packs
     bcwin = {r: [] for r in range(n)}
     exwin = {r: [] for r in range(n)}
